@@ -54,9 +54,9 @@ CLAIMS = {
         note="PARTIAL: the serialisation itself is Rust ownership (&mut WriterSet owned by one thread; trusted: rustc) plus the sequential run loop; channel and scheduler behaviour are not modelled. WriterSet::validate_event_versions / handle_write are not under contract in this build."),
     "C05": dict(
         category="other", design_ref="§5 U03 (open)",
-        technique="Verus unbounded proof on seglog Writer::open (the recovery scan) extracted verbatim, with the Reader behind its contract; replay on real files + Kani/CBMC bounded harnesses on WriterSet::{next_partition_sequence, read_partition_latest_sequence, read_stream_latest_version} extracted verbatim (units/U20)",
-        text="For EVERY file content (every truncation length, every corruption the reader's CRC gate rejects, a torn tail, a truncation marker) a reopened writer resumes exactly at the end of the maximal run of intact records from the start offset; the flushed offset and the file cursor are at that position and nothing is buffered; reopening fails only on an I/O error, never on corruption. This is the function-level half of `recovers to a consistent prefix and continues without gap or reuse` for the segment log. Writer-thread half (Kani, bounded: <= 3 sealed segments): after a (re)open the next append to a partition continues at the cached sequence, else one past the MAXIMUM over the live index and ALL sealed segments, else 0; a stream's latest version / partition key come from its newest holder - no gap, no reuse.",
-        note="PARTIAL: the seglog recovery scan (proved) and the sequence / version continuity lookups of the writer thread (bounded, index files as lookup tables under the assumed monotonicity invariant). The Reader is assumed to satisfy its contract (read_record returns the intact record at an offset or the documented stop kind; parse_record's gate is checked under C17). NOT decided: Open*Index::hydrate (indexes events whose commit record is missing: candidate, DESIGN §10), Worker::new, DatabaseBuilder::open, rollover index files (C06), partition-sequence / stream-version continuation after reopen at database level."),
+        technique="Verus unbounded proof on seglog Writer::open (the recovery scan) extracted verbatim, with the Reader behind its contract; replay on real files + Kani/CBMC bounded harnesses on WriterSet::{next_partition_sequence, read_partition_latest_sequence, read_stream_latest_version} extracted verbatim (units/U20); Kani/CBMC bounded harness on Open{Event,Partition,Stream}Index::hydrate extracted verbatim (units/U24)",
+        text="For EVERY file content (every truncation length, every corruption the reader's CRC gate rejects, a torn tail, a truncation marker) a reopened writer resumes exactly at the end of the maximal run of intact records from the start offset; the flushed offset and the file cursor are at that position and nothing is buffered; reopening fails only on an I/O error, never on corruption. This is the function-level half of `recovers to a consistent prefix and continues without gap or reuse` for the segment log. Writer-thread half (Kani, bounded: <= 3 sealed segments): after a (re)open the next append to a partition continues at the cached sequence, else one past the MAXIMUM over the live index and ALL sealed segments, else 0; a stream's latest version / partition key come from its newest holder - no gap, no reuse. Index rebuild (Kani, bounded: <= 4 records): after a reopen each of the three live indexes holds exactly the events of committed transactions - nothing of a last transaction whose commit record never reached the file.",
+        note="PARTIAL: the seglog recovery scan (proved) and the sequence / version continuity lookups of the writer thread (bounded, index files as lookup tables under the assumed monotonicity invariant). The Reader is assumed to satisfy its contract (read_record returns the intact record at an offset or the documented stop kind; parse_record's gate is checked under C17). hydrate found the defect fixed in d293857 (events of a transaction without commit record were indexed). NOT decided: Worker::new, DatabaseBuilder::open, rollover index files (C06), partition-sequence / stream-version continuation after reopen at database level."),
     "C07": dict(
         category="other", design_ref="§7 U17",
         technique="Kani/CBMC on SLICES (R5/R4) of the ClusterActor read handlers lifted verbatim: handle_partition_read_locally, handle_stream_read_locally, handle_local_read (whole body), the GetStreamVersion task and the GetPartitionSequence answer, against a model database iterator and a recording reply sink; PartitionConfirmationState::update_confirmation (the watermark is the longest quorum-confirmed prefix) and AtomicWatermark::can_read (units/U09)",
